@@ -23,6 +23,10 @@ var (
 	PrintWriter io.Writer = os.Stdout
 )
 
+// maxAllocLen is the maximum length of a value created from a size argument
+// of a builtin function, larger sizes are reported as errors.
+const maxAllocLen = 1<<31 - 1
+
 // BuiltinType represents a builtin type
 type BuiltinType byte
 
@@ -353,6 +357,13 @@ func builtinMakeArrayFunc(n int, arg Object) (Object, error) {
 	if n <= 0 {
 		return arg, nil
 	}
+	if n > maxAllocLen {
+		return nil, NewArgumentTypeError(
+			"1st",
+			"integer within size limit",
+			"too large integer",
+		)
+	}
 
 	arr, ok := arg.(Array)
 	if !ok {
@@ -453,16 +464,40 @@ func builtinRepeatFunc(arg Object, count int) (ret Object, err error) {
 		)
 	}
 
+	// tooLarge reports whether n*count exceeds the size limit of a new value.
+	tooLarge := func(n int) bool {
+		return n > 0 && count > maxAllocLen/n
+	}
+	errTooLarge := func() error {
+		return NewArgumentTypeError(
+			"2nd",
+			"integer within size limit",
+			"too large integer",
+		)
+	}
+
 	switch v := arg.(type) {
 	case Array:
+		if tooLarge(len(v)) {
+			return nil, errTooLarge()
+		}
+		if len(v) == 0 {
+			return Array{}, nil
+		}
 		out := make(Array, 0, len(v)*count)
 		for i := 0; i < count; i++ {
 			out = append(out, v...)
 		}
 		ret = out
 	case String:
+		if tooLarge(len(v)) {
+			return nil, errTooLarge()
+		}
 		ret = String(strings.Repeat(string(v), count))
 	case Bytes:
+		if tooLarge(len(v)) {
+			return nil, errTooLarge()
+		}
 		ret = Bytes(bytes.Repeat(v, count))
 	default:
 		err = NewArgumentTypeError(
